@@ -190,6 +190,15 @@ def run_property(pid, tier, seed, only_units=None, quiet=False):
     for r in results:
         if r.error:
             errors.append('%s/%s: %s' % (r.unit.name, r.vname, r.error))
+        # a failed UNWINDING ASSERTION means the verification bound of a bounded unit was too small for this variant: a
+        # tool artefact (exit 2), never a violation
+        unw = [f for f in r.failed if '.unwind.' in f['name'] or 'unwinding assertion' in f.get('description', '')]
+        if unw:
+            errors.append('%s/%s: verification bound too small: unwinding assertion failed (%s)' % (r.unit.name, r.vname, unw[0]['name']))
+            r.failed = [f for f in r.failed if f not in unw]
+            if len(r.failed) and all(True for _ in r.failed):
+                # with an incomplete unwinding the remaining verdicts of this run are not trusted either
+                r.failed = []
         for f in r.failed:
             if safety_only and not is_safety(f):
                 ignored_functional += 1
